@@ -1,2 +1,272 @@
-(* Property C08 - statements only (proofs in Proofs/C08.v). Not built yet. *)
-From SC.Model Require Import Base.
+(* Property C08 - separators affect only reading and printing of numbers, never the computed value.
+   STATEMENTS ONLY (proofs: Proofs/C08.v).
+
+   Model functions: Lexer.read_decimal (the literal reader shared by number_body, money_body, percent_body; the only
+   reader of cf_dsep / cf_tsep besides Format.format_number), Base.replace_all, Items.calculate, Interp.execute_ast,
+   RuleFns.call_rule, Rules.rule_tokinizer / dyn_loop, Api.basic_execute, Corr.run.
+   Definitions from Proofs/C08.v (spec side, written from the property text):
+     write dsep tsep grouped ip fp   the literal with integer digits ip (grouped in threes from the right by tsep when
+                                     [grouped]) and fraction digits fp after dsep          ("1.234.567,5")
+     write_groups dsep tsep gs fp    the same with an arbitrary grouping gs of the integer part
+     canonical ip fp                 ip "." fp  (ip alone when fp is empty): the text Rust's f64 parser understands
+     normalise dsep tsep x           replace_all dsep "." (replace_all tsep "" x), the body of read_decimal
+     seps_ok dsep tsep               one decimal character; no thousands separator or one different character
+     digits x / nondigit x           every character is / is not an ASCII digit;  avoids d t x  x contains no separator
+     same_but_seps c c'              c' = set_fmt c .. d t ..: the configurations differ at most in the two separators
+     dec_val 0 x                     the integer the digit string x denotes
+
+   NOTE (known finding C08-K1, theorem C08_grouping_refuted): C08_read_write / C08_read_write_f64 are about the READER
+   function Lexer.read_decimal and hold for every single-character thousands separator.  Which texts reach the reader
+   is decided by the lexer's literal regexes (config.json parse.number / money / percent), which admit only [0-9.,]
+   inside a literal: a literal grouped by '.' or ',' reaches the reader whole, a literal grouped by any other
+   thousands separator (' ', "'") is split by the lexer and does NOT denote the intended number. *)
+From Coq Require Import Floats.
+From SC.Model Require Import Base Num NumF64 FloatIO Types Config Case Chrono UiTokens Rx Post Parser Items Interp RuleFns
+     Rules Format Lexer Api.
+From SC.Proofs Require Import C08.
+
+(* ---- reading: what is written in a convention is read as the canonical text ---- *)
+
+(* the string normalisation of the reader, for every grouping and all separator-free pieces (a sign may be part of
+   the first group) *)
+Theorem C08_normalise_any_grouping : forall dsep tsep gs fp,
+  seps_ok dsep tsep -> Forall (avoids dsep tsep) gs -> avoids dsep tsep fp ->
+  replace_all dsep [46%N] (replace_all tsep [] (write_groups dsep tsep gs fp)) = canonical (concat_str gs) fp.
+Proof. exact normalise_write_groups. Qed.
+
+(* grouping in threes loses no digit *)
+Theorem C08_group3_concat : forall ip, concat_str (group3 ip) = ip.
+Proof. exact concat_group3. Qed.
+
+Section WithNum.
+Context {F : Type} {NF : Num F}.
+
+(* all digit strings, all admissible separators: the configuration disappears *)
+Theorem C08_read_write : forall (cfg : config F) grouped ip fp,
+  seps_ok (cf_dsep cfg) (cf_tsep cfg) -> nondigit (cf_dsep cfg) -> nondigit (cf_tsep cfg) ->
+  digits ip -> digits fp ->
+  read_decimal cfg (write (cf_dsep cfg) (cf_tsep cfg) grouped ip fp) = fparse (canonical ip fp).
+Proof. exact read_write. Qed.
+
+(* the same literal written in two conventions, read under the respective configuration, is the same number *)
+Theorem C08_read_two_conventions : forall (c1 c2 : config F) g1 g2 ip fp,
+  seps_ok (cf_dsep c1) (cf_tsep c1) -> nondigit (cf_dsep c1) -> nondigit (cf_tsep c1) ->
+  seps_ok (cf_dsep c2) (cf_tsep c2) -> nondigit (cf_dsep c2) -> nondigit (cf_tsep c2) ->
+  digits ip -> digits fp ->
+  read_decimal c1 (write (cf_dsep c1) (cf_tsep c1) g1 ip fp)
+  = read_decimal c2 (write (cf_dsep c2) (cf_tsep c2) g2 ip fp).
+Proof. exact read_write_two. Qed.
+
+(* with a sign character in front *)
+Theorem C08_read_write_signed : forall (cfg : config F) sg ip fp,
+  seps_ok (cf_dsep cfg) (cf_tsep cfg) -> avoids (cf_dsep cfg) (cf_tsep cfg) [sg] ->
+  nondigit (cf_dsep cfg) -> nondigit (cf_tsep cfg) -> digits ip -> digits fp ->
+  read_decimal cfg (sg :: write (cf_dsep cfg) (cf_tsep cfg) true ip fp) = fparse (sg :: canonical ip fp).
+Proof. exact read_write_signed. Qed.
+
+(* ---- evaluation: no stage after the lexer reads the separators ---- *)
+
+(* parametric form: for every [bexec] that is itself insensitive *)
+Theorem C08_calculate_parametric : forall (c c' : config F), same_but_seps c c' ->
+  forall bexec : config F -> str -> res (option F), (forall code, bexec c' code = bexec c code) ->
+  forall l r op, calculate bexec c' l r op = calculate bexec c l r op.
+Proof. exact calculate_seps. Qed.
+
+Theorem C08_execute_ast_parametric : forall (c c' : config F), same_but_seps c c' ->
+  forall bexec : config F -> str -> res (option F), (forall code, bexec c' code = bexec c code) ->
+  forall a vs, execute_ast bexec c' vs a = execute_ast bexec c vs a.
+Proof. exact execute_ast_seps. Qed.
+
+Theorem C08_call_rule_parametric : forall (c c' : config F), same_but_seps c c' ->
+  forall bexec : config F -> str -> res (option F), (forall code, bexec c' code = bexec c code) ->
+  forall yr lang vs fname fs, call_rule bexec yr c' lang vs fname fs = call_rule bexec yr c lang vs fname fs.
+Proof. exact call_rule_seps. Qed.
+
+(* the unit recogniser does not take [bexec] *)
+Theorem C08_dyn_loop : forall (c c' : config F), same_but_seps c c' ->
+  forall fuel line vs st, dyn_loop fuel line c' vs st = dyn_loop fuel line c vs st.
+Proof. exact dyn_loop_seps. Qed.
+
+(* the real basic_execute (unit conversion code) reads with '.' and no grouping whatever is configured *)
+Theorem C08_basic_execute : forall lx ck (c c' : config F) code,
+  same_but_seps c c' -> basic_execute lx ck c' code = basic_execute lx ck c code.
+Proof. exact basic_execute_seps. Qed.
+
+(* ... hence the stages as Api.tokinize / Api.execute_text compose them *)
+Theorem C08_calculate : forall lx ck (c c' : config F) l r op,
+  same_but_seps c c' ->
+  calculate (basic_execute lx ck) c' l r op = calculate (basic_execute lx ck) c l r op.
+Proof. exact calculate_real. Qed.
+
+Theorem C08_execute_ast : forall lx ck (c c' : config F) vs a,
+  same_but_seps c c' ->
+  execute_ast (basic_execute lx ck) c' vs a = execute_ast (basic_execute lx ck) c vs a.
+Proof. exact execute_ast_real. Qed.
+
+Theorem C08_call_rule : forall lx ck (c c' : config F) lang vs fname fs,
+  same_but_seps c c' ->
+  call_rule (basic_execute lx ck) (ck_year ck) c' lang vs fname fs
+  = call_rule (basic_execute lx ck) (ck_year ck) c lang vs fname fs.
+Proof. exact call_rule_real. Qed.
+
+Theorem C08_rule_tokinizer : forall lx ck (c c' : config F) fuel line lang vs st,
+  same_but_seps c c' ->
+  rule_tokinizer (basic_execute lx ck) (ck_year ck) fuel line c' lang vs st
+  = rule_tokinizer (basic_execute lx ck) (ck_year ck) fuel line c lang vs st.
+Proof. exact rule_tokinizer_real. Qed.
+
+(* ---- the lexer reads the separators only through read_decimal: on a line whose literal spans are read alike
+        (in particular a line without any separator character) the whole of Api.tokinize is the same, and
+        Api.execute_text differs at most in the printed text (Format.format_number is the other reader) ---- *)
+Theorem C08_lexer_only_read_decimal : forall lx today (c c' : config F) line lang st,
+  same_but_seps c c' ->
+  (forall sp, read_decimal c' (slice line sp) = read_decimal c (slice line sp)) ->
+  regex_tokinizer lx today c' lang line st = regex_tokinizer lx today c lang line st /\
+  language_tokinizer lx c' lang line st = language_tokinizer lx c lang line st /\
+  alias_tokinizer lx today c' lang st = alias_tokinizer lx today c lang st.
+Proof.
+  intros lx today c c' line lang st H Hrd. split; [|split].
+  - apply (regex_tokinizer_seps lx c c' H line Hrd).
+  - apply language_tokinizer_seps.
+  - apply (alias_tokinizer_seps lx c c' H).
+Qed.
+
+Theorem C08_tokinize : forall lx ck (c c' : config F) lang vs line,
+  same_but_seps c c' ->
+  (forall sp, read_decimal c' (slice line sp) = read_decimal c (slice line sp)) ->
+  tokinize lx ck c' lang vs line = tokinize lx ck c lang vs line.
+Proof. exact tokinize_seps. Qed.
+
+(* obs_value = (value or error message, highlighting, tokens, token infos) of a line result, without the printed text *)
+Theorem C08_execute_text : forall lx ck (c c' : config F) lang vs line o o' vs1 vs1',
+  same_but_seps c c' ->
+  (forall sp, read_decimal c' (slice line sp) = read_decimal c (slice line sp)) ->
+  execute_text lx ck c lang vs line = Ok (o, vs1) ->
+  execute_text lx ck c' lang vs line = Ok (o', vs1') ->
+  obs_value o' = obs_value o /\ vs1' = vs1.
+Proof. exact execute_text_seps. Qed.
+
+Theorem C08_free_line_read_alike : forall (c c' : config F) line,
+  seps_ok (cf_dsep c) (cf_tsep c) -> seps_ok (cf_dsep c') (cf_tsep c') ->
+  avoids (cf_dsep c) (cf_tsep c) line -> avoids (cf_dsep c') (cf_tsep c') line ->
+  forall sp, read_decimal c' (slice line sp) = read_decimal c (slice line sp).
+Proof. exact read_decimal_free_line. Qed.
+
+(* the separator mutators of the API (Corr.step OSetDec / OSetThou) stay inside the relation *)
+Theorem C08_mutators_related : forall (c : config F) d t,
+  same_but_seps c (set_fmt c (cf_money c) (cf_number c) (cf_percent c) d t (cf_tz c)) /\
+  (forall c', same_but_seps c c' -> same_but_seps c' c) /\
+  (forall c1 c2, same_but_seps c c1 -> same_but_seps c1 c2 -> same_but_seps c c2).
+Proof.
+  intros c d t. split; [apply same_but_seps_set|]. split; [apply same_but_seps_sym|apply same_but_seps_trans].
+Qed.
+
+(* ---- variables hold values (asts), not text ---- *)
+Theorem C08_variable_read : forall bexec (c c' : config F) vs name,
+  execute_ast bexec c vs (AVariable name) = Ok (IOk (var_value vs name), vs) /\
+  execute_ast bexec c' vs (AVariable name) = execute_ast bexec c vs (AVariable name).
+Proof. exact variable_read_any_config. Qed.
+
+Theorem C08_assignment_stores_value : forall lx ck (c c' : config F) vs name e v vs1,
+  same_but_seps c c' ->
+  execute_ast (basic_execute lx ck) c vs e = Ok (IOk v, vs1) -> assoc name vs1 <> None ->
+  exists vs2 vs2',
+    execute_ast (basic_execute lx ck) c vs (AAssignment name e) = Ok (IOk v, vs2) /\
+    execute_ast (basic_execute lx ck) c' vs (AAssignment name e) = Ok (IOk v, vs2') /\
+    vs2 = vs2' /\ option_map (@v_data F) (assoc name vs2) = Some v.
+Proof. exact assignment_stores_value. Qed.
+
+(* several lines, each seeing the variables left by the previous ones *)
+Theorem C08_lines_with_variables : forall lx ck (c c' : config F) lines vs,
+  same_but_seps c c' ->
+  execute_lines (basic_execute lx ck) c' vs lines = execute_lines (basic_execute lx ck) c vs lines.
+Proof. exact execute_lines_real. Qed.
+
+End WithNum.
+
+(* ---- binary64: the number read is the correctly rounded decimal <ip fp> * 10^-|fp| ---- *)
+Theorem C08_read_write_f64 : forall (cfg : config float) grouped ip fp,
+  seps_ok (cf_dsep cfg) (cf_tsep cfg) -> nondigit (cf_dsep cfg) -> nondigit (cf_tsep cfg) ->
+  digits ip -> ip <> [] -> digits fp ->
+  read_decimal cfg (write (cf_dsep cfg) (cf_tsep cfg) grouped ip fp)
+  = Some (f64_of_decimal false (dec_val 0 (ip ++ fp)) (- Z.of_nat (length fp))).
+Proof. exact read_write_f64. Qed.
+
+(* ---- non-vacuity ---- *)
+Theorem C08_write_examples :
+  group3 (s "1234567") = [s "1"; s "234"; s "567"] /\ group3 (s "123456") = [s "123"; s "456"] /\
+  group3 (s "12") = [s "12"] /\
+  write (s ",") (s ".") true (s "1234567") (s "5") = s "1.234.567,5" /\
+  write (s ".") (s ",") true (s "1234567") (s "5") = s "1,234,567.5" /\
+  write (s ".") [] true (s "1234567") (s "5") = s "1234567.5" /\
+  write (s ",") (s "'") true (s "1234567") [] = s "1'234'567" /\
+  normalise (s ",") (s ".") (s "1.234.567,5") = s "1234567.5".
+Proof. exact group3_example. Qed.
+
+(* through the whole model (Corr.run from the loaded default configuration, OSetDec d, OSetThou t, OExec "en" line):
+   type and bits of the value of every line; b64 m k = bits of the binary64 nearest to m * 10^-k *)
+Theorem C08_examples_units :
+  run_under "," "." "1 inch to mm" = [Some (s "DYNAMIC_TYPE", b64 254 1)] /\
+  run_under "." "," "1 inch to mm" = [Some (s "DYNAMIC_TYPE", b64 254 1)] /\
+  run_under "," "." "1 m to km" = [Some (s "DYNAMIC_TYPE", b64 1 3)] /\
+  run_under "." "," "1 m to km" = [Some (s "DYNAMIC_TYPE", b64 1 3)] /\
+  run_under "," "." "1,5 km to m" = [Some (s "DYNAMIC_TYPE", b64 1500 0)] /\
+  run_under "." "," "1.5 km to m" = [Some (s "DYNAMIC_TYPE", b64 1500 0)].
+Proof. exact examples_units. Qed.
+
+Theorem C08_examples_literals :
+  run_under "," "." "1.234,5 * 2" = [Some (s "NUMBER", b64 2469 0)] /\
+  run_under "." "," "1,234.5 * 2" = [Some (s "NUMBER", b64 2469 0)] /\
+  run_under "." "" "1234.5 * 2" = [Some (s "NUMBER", b64 2469 0)] /\
+  run_under "," "'" "1234,5 * 2" = [Some (s "NUMBER", b64 2469 0)] /\
+  run_under "," "." "x = 1.234,5
+x * 2" = [Some (s "NUMBER", b64 12345 1); Some (s "NUMBER", b64 2469 0)] /\
+  run_under "." "," "x = 1,234.5
+x * 2" = [Some (s "NUMBER", b64 12345 1); Some (s "NUMBER", b64 2469 0)] /\
+  run_under "," "." "12,5%" = [Some (s "PERCENT", b64 125 1)] /\
+  run_under "." "," "12.5%" = [Some (s "PERCENT", b64 125 1)] /\
+  run_under "," "." "1.234,5 usd" = [Some (s "MONEY", b64 12345 1)] /\
+  run_under "." "," "1,234.5 usd" = [Some (s "MONEY", b64 12345 1)] /\
+  run_under "," "." "10 usd to try" = run_under "." "," "10 usd to try" /\
+  run_under "," "." "10 usd to try" <> [None].
+Proof. exact examples_literals. Qed.
+
+(* known finding C08-K1: under (',' ' ') the literal 1234,5 written in the configured convention is "1 234,5"; the
+   reader would read it as 1234.5, but the line evaluates to 235.5 (1 and 234,5 juxtaposed); likewise "1'234,5 * 2" = 1 *)
+Theorem C08_grouping_refuted :
+  write (s ",") (s " ") true (s "1234") (s "5") = s "1 234,5" /\
+  option_map f64_to_bits (read_decimal (cfg_with "," " ") (s "1 234,5")) = Some (b64 12345 1) /\
+  run_under "," " " "1 234,5" = [Some (s "NUMBER", b64 2355 1)] /\
+  run_under "," "." "1.234,5" = [Some (s "NUMBER", b64 12345 1)] /\
+  b64 2355 1 <> b64 12345 1 /\
+  write (s ",") (s "'") true (s "1234") (s "5") = s "1'234,5" /\
+  run_under "," "'" "1'234,5 * 2" = [Some (s "NUMBER", b64 1 0)].
+Proof. exact grouping_refuted. Qed.
+
+Print Assumptions C08_grouping_refuted.
+Print Assumptions C08_normalise_any_grouping.
+Print Assumptions C08_group3_concat.
+Print Assumptions C08_read_write.
+Print Assumptions C08_read_two_conventions.
+Print Assumptions C08_read_write_signed.
+Print Assumptions C08_calculate_parametric.
+Print Assumptions C08_execute_ast_parametric.
+Print Assumptions C08_call_rule_parametric.
+Print Assumptions C08_dyn_loop.
+Print Assumptions C08_basic_execute.
+Print Assumptions C08_calculate.
+Print Assumptions C08_execute_ast.
+Print Assumptions C08_call_rule.
+Print Assumptions C08_rule_tokinizer.
+Print Assumptions C08_lexer_only_read_decimal.
+Print Assumptions C08_tokinize.
+Print Assumptions C08_execute_text.
+Print Assumptions C08_free_line_read_alike.
+Print Assumptions C08_mutators_related.
+Print Assumptions C08_variable_read.
+Print Assumptions C08_assignment_stores_value.
+Print Assumptions C08_lines_with_variables.
+Print Assumptions C08_read_write_f64.
+Print Assumptions C08_write_examples.
+Print Assumptions C08_examples_units.
+Print Assumptions C08_examples_literals.
